@@ -417,3 +417,28 @@ func RandDoubleClass(r *fw.Rand) (float64, string) {
 	}
 	return fw.Pick(r, []float64{0, math.MaxFloat64, math.SmallestNonzeroFloat64, 5e-324, 1.7976931348623157e308, 4.9e-324, 123456789012345680000, 0.000001, 1e21, 999999999999999900000}), "extreme"
 }
+
+// EscapeNonASCII rewrites a JSON text so that each character outside ASCII (these occur inside strings only) is, with probability
+// num/den, written as \uXXXX - a surrogate pair beyond the basic plane - in random hex case. The value of the text is unchanged and
+// it grows by a few bytes only.
+func EscapeNonASCII(r *fw.Rand, text []byte, num, den int) []byte {
+	var sb strings.Builder
+	for _, c := range string(text) {
+		if c < 0x80 || !r.Chance(num, den) {
+			sb.WriteRune(c)
+			continue
+		}
+		f := `\u%04x`
+		if r.Bool() {
+			f = `\u%04X`
+		}
+		if c >= 0x10000 {
+			hi, lo := utf16.EncodeRune(c)
+			fmt.Fprintf(&sb, f, hi)
+			fmt.Fprintf(&sb, f, lo)
+		} else {
+			fmt.Fprintf(&sb, f, c)
+		}
+	}
+	return []byte(sb.String())
+}
